@@ -22,6 +22,22 @@ def check(prog, run):
     run.rule("R-neighbour", "SC_apply compares column o with column o-1; match = nanargmin|f_prev - f_i|, one index for f, xi, phi; "
              "|df|/f < err_fn and |dxi|/xi < err_xi and 1-MAC < err_phi; range(ordmin, ordmax+1, step); first column skipped", 12)
     run.rule("R-pure", "labels are constants 0/1 stored at (i, o) into a freshly allocated array; no store into a parameter", 3)
+    run.rule("R-bind", "every run() hands sc['err_fn'], sc['err_xi'], sc['err_phi'] of its run parameters to the tolerance parameter of the same name", 6)
+    sc_fi = prog.func(FN)
+    pos_ = astq.params_of(sc_fi.node)[0]
+    want_ = {pos_[6]: {"self.run_params.sc['err_fn']"}, pos_[7]: {"self.run_params.sc['err_xi']"}, pos_[8]: {"self.run_params.sc['err_phi']"}}
+    nb_ = 0
+    for ci in prog.classes.values():
+        if not ci.mod.startswith("pyoma2.algorithms"):
+            continue
+        m = ci.methods.get("run")
+        if m is None:
+            continue
+        for c, p_, ok, detail in astq.handover(prog, m, sc_fi.qual, want_):
+            nb_ += 1
+            run.ob("R-bind", m.qual, f"sc -> SC_apply.{p_}", ok, detail, witness=detail[:90], file=rel(prog.mods[m.mod].path), node=c, config=p_)
+    if not nb_:
+        run.ob("R-bind", "pyoma2.algorithms", "callers of SC_apply", None, "no run() method calling SC_apply found")
     run.rule("R-labels", "readers of Lab reachable from the algorithm classes compare it only with values SC_apply writes", 4)
     fi = prog.func(FN)
     f = rel(prog.mods[fi.mod].path)
